@@ -13,6 +13,8 @@ NEUTRALS = []
 
 # changes made by sub-agents that were given only the property text (see /verif/seeded/<id>/): each must stay reported
 SEEDED = [
+    {'name': 'seeded change C17-r5b', 'seed': 'C17-r5b', 'expect': '|INT-acc|'},
+    {'name': 'seeded change C17-r5a', 'seed': 'C17-r5a', 'expect': '|OCT-letter|'},
     {'name': 'seeded change C17-r4b', 'seed': 'C17-r4b', 'expect': '|F5e-pairing|'},
     {'name': 'seeded change C17-r4a', 'seed': 'C17-r4a', 'expect': '|F3-ps13|'},
     {'name': 'seeded change C17-r3', 'seed': 'C17-r3', 'expect': '|TOTAL-ord|'},
